@@ -852,9 +852,17 @@ func c10L1(c *core.Ctx) {
 					}
 					args = append(args, target)
 				}
-				prefix := []string{"strace", "-f", "-o", "/dev/null", "-P", filepath.Join(dir, target), "-e", "trace=read", "-e", fmt.Sprintf("inject=read:error=EIO:when=%d+", when)}
+				straceLog := filepath.Join(c.Work, fmt.Sprintf("strace.%s.%d.%s.log", which, when, strings.NewReplacer("/", "_", " ", "_").Replace(strings.Join(cmd.args, "_"))))
+				prefix := []string{"strace", "-f", "-o", straceLog, "-P", filepath.Join(dir, target), "-e", "trace=read", "-e", fmt.Sprintf("inject=read:error=EIO:when=%d+", when)}
 				res := run.Exec(c.HR, args, run.ExecOpts{Dir: dir, Prefix: prefix, Timeout: 60 * time.Second})
 				c.Eval(1)
+				if b, err := os.ReadFile(straceLog); err != nil || !strings.Contains(string(b), "(INJECTED)") {
+					// strace counts reads per thread: the reads of this run were spread over threads and none reached the count
+					c.Count("l1_strace_runs_without_injection", 1)
+					os.Remove(straceLog)
+					continue
+				}
+				os.Remove(straceLog)
 				c.Count("l1_strace_injection_runs", 1)
 				c.Nontrivial("strace", which, fmt.Sprint(when), joinArgs(args))
 				doc := caseDoc{Args: append(prefix, args...), Note: fmt.Sprintf("read() #%d and later on the %s return EIO", when, which), Observed: resDoc(res)}
@@ -918,6 +926,11 @@ func c10L1(c *core.Ctx) {
 					continue
 				}
 				c.Eval(1)
+				if res.Err != "injected" {
+					// strace counts reads per thread; the reads of this run were spread over several threads and none reached k
+					c.Count("l1_terminal_going_away_runs_without_injection", 1)
+					continue
+				}
 				c.Count("l1_terminal_going_away_runs", 1)
 				c.Nontrivial("tty-eio", which, fmt.Sprint(when), joinArgs(cmd.args))
 				doc := caseDoc{Args: mk("/dev/pts/N"), Note: fmt.Sprintf("the %s is a pseudo-terminal; read() #%d and later on it return EIO (the terminal went away)", which, when), Observed: resDoc(res)}
